@@ -157,7 +157,10 @@ func Qualifier(name, query string) (Filter, error) {
 	if name == "" {
 		return func(f Feature) bool {
 			for _, vv := range f.Props {
-				for _, v := range vv {
+				if len(vv) < 2 {
+					continue
+				}
+				for _, v := range vv[1:] {
 					if re.MatchString(v) {
 						return true
 					}
